@@ -301,6 +301,19 @@ def c18(tier, seed):
                     violations.append(payload)
             else:
                 nondet.append(payload)
+    if tier == "thorough":
+        # -DEAV_EXTRA builds of the three source sets in lock-step (lpart/domain strings are part of the records)
+        exes_x = {}
+        for bk in ("idn2", "idn", "idnkit"):
+            exes_x[bk], _ = build.build_hist(bk, extra=True)
+        for cfg in ("lockstep", "lockstep-fault"):
+            bs, ncommon, mism = lockstep_compare("C18", seed + 5, cfg, exes_x, 10**8, 60, W)
+            batches += list(bs.values())
+            lock_info["extra-" + cfg] = {"plans_compared_across_three_backends": ncommon, "mismatching_plans": len(mism)}
+            for i in mism[:2]:
+                plan = gen_plan(exes_x["idn2"], "C18", cfg, seed + 5, i)
+                st, payload = lockstep_triage("C18", exes_x, plan, {"cfg": cfg, "seed": seed + 5, "index": i, "variant": "extra"})
+                (violations if st == "violation" else nondet).append(payload)
     # context ledger under backend-init faults: idnkit only
     ctxb = Batch("ctxfault-idnkit", exes["idnkit"], "C18", "ctxfault", seed, 8000 if tier == "quick" else 10**8, secs, W, samples=True).run()
     batches.append(ctxb)
